@@ -1029,6 +1029,9 @@ func checkC19(tier string, seed int64) *CustomResult {
 	}
 	for _, pol := range []string{"fair", "binpacking"} {
 		run.exploreNodes(pol, ndepth)
+		if pol == "fair" {
+			run.explorePolicies(ndepth + 1)
+		}
 	}
 	sort.Slice(run.found, func(i, j int) bool { return run.found[i].Viol.FP < run.found[j].Viol.FP })
 	samples := []interface{}{
@@ -1051,4 +1054,148 @@ func checkC19(tier string, seed int64) *CustomResult {
 func init() {
 	registerCheck(&CheckDef{Prop: "C19", Level: "exploration", Technique: "bounded exhaustive enumeration of candidate sets x all presentation orders through the real sorters against an independent reference comparator; explicit-state search over node histories for the iterators", Custom: checkC19,
 		Assumptions: []string{"key alphabets are small (see rule); resource vectors use one type for the fair-share keys", "map iteration order = creation order (toolchain overlay), so creation order enumerates every presentation order"}})
+}
+
+
+// ---------------------------------------------------------------- node sorting policy changed by a reload
+
+// policyWorld: two nodes with memory, vcore and gpu; allocations that use memory only or gpu only (so the resource types
+// are used unevenly); the sorting policy (type and resource weights) is replaced at any point, as a reload does. Oracle:
+// differential, the order of the collection equals the order of a fresh collection holding the same nodes under the
+// current policy (ties are broken by node id in both).
+type policyWorld struct {
+	nc    objects.NodeCollection
+	nodes map[string]*objects.Node
+	reg   map[string]bool
+	mem   map[string]int
+	gpu   map[string]int
+	pol   int
+	seq   int
+}
+
+type c19Policy struct {
+	typ     string
+	weights map[string]float64
+}
+
+var c19Policies = []c19Policy{
+	{"fair", nil}, {"fair", map[string]float64{"vcore": 1, "memory": 1, "gpu": 4}}, {"fair", map[string]float64{"vcore": 1, "memory": 1}}, {"fair", map[string]float64{"memory": 1}}, {"fair", map[string]float64{"gpu": 1}},
+	{"binpacking", nil}, {"binpacking", map[string]float64{"vcore": 1, "memory": 1, "gpu": 4}}, {"binpacking", map[string]float64{"memory": 1}},
+}
+
+func (p c19Policy) String() string { return fmt.Sprintf("%s%v", p.typ, p.weights) }
+
+func newPolicyWorld() *policyWorld {
+	w := &policyWorld{nc: objects.NewNodeCollection("default"), nodes: map[string]*objects.Node{}, reg: map[string]bool{}, mem: map[string]int{}, gpu: map[string]int{}}
+	w.nc.SetNodeSortingPolicy(objects.NewNodeSortingPolicy(c19Policies[0].typ, c19Policies[0].weights))
+	return w
+}
+
+func (w *policyWorld) enabled() []string {
+	var ops []string
+	for _, id := range []string{"n1", "n2"} {
+		if !w.reg[id] {
+			ops = append(ops, "ADD "+id)
+			continue
+		}
+		if w.mem[id] < 2 {
+			ops = append(ops, "ALLOC_MEM "+id)
+		}
+		if w.gpu[id] < 2 {
+			ops = append(ops, "ALLOC_GPU "+id)
+		}
+	}
+	for i := range c19Policies {
+		if i != w.pol {
+			ops = append(ops, fmt.Sprintf("POLICY %d", i))
+		}
+	}
+	return ops
+}
+
+func (w *policyWorld) apply(op string) {
+	var kind, arg string
+	fmt.Sscanf(op, "%s %s", &kind, &arg)
+	switch kind {
+	case "ADD":
+		n := objects.NewNode(&si.NodeInfo{NodeID: arg, Attributes: map[string]string{}, SchedulableResource: &si.Resource{Resources: map[string]*si.Quantity{
+			"memory": {Value: 4}, "vcore": {Value: 4}, "gpu": {Value: 4}}}})
+		w.nodes[arg] = n
+		_ = w.nc.AddNode(n)
+		w.reg[arg] = true
+	case "ALLOC_MEM", "ALLOC_GPU":
+		w.seq++
+		typ := "memory"
+		if kind == "ALLOC_GPU" {
+			typ = "gpu"
+			w.gpu[arg]++
+		} else {
+			w.mem[arg]++
+		}
+		al := objects.NewAllocationFromSI(&si.Allocation{AllocationKey: fmt.Sprintf("pa-%d", w.seq), ApplicationID: "papp", PartitionName: "default", NodeID: arg,
+			ResourcePerAlloc: &si.Resource{Resources: map[string]*si.Quantity{typ: {Value: 1}}}, AllocationTags: map[string]string{siCommon.CreationTime: "1000"}})
+		w.nodes[arg].AddAllocation(al)
+	case "POLICY":
+		i, _ := strconv.Atoi(arg)
+		w.pol = i
+		w.nc.SetNodeSortingPolicy(objects.NewNodeSortingPolicy(c19Policies[i].typ, c19Policies[i].weights))
+	}
+}
+
+func (w *policyWorld) key() string {
+	return fmt.Sprintf("%v%v|%d%d|%d%d|%d", w.reg["n1"], w.reg["n2"], w.mem["n1"], w.mem["n2"], w.gpu["n1"], w.gpu["n2"], w.pol)
+}
+
+func (w *policyWorld) order(nc objects.NodeCollection) []string {
+	var out []string
+	if it := nc.GetFullNodeIterator(); it != nil {
+		it.ForEachNode(func(n *objects.Node) bool { out = append(out, n.NodeID); return true })
+	}
+	return out
+}
+
+func (r *c19Run) explorePolicies(depth int) {
+	build := func(path []string) *policyWorld {
+		w := newPolicyWorld()
+		for _, o := range path {
+			w.apply(o)
+		}
+		return w
+	}
+	seen := map[string]bool{newPolicyWorld().key(): true}
+	frontier := [][]string{{}}
+	for d := 0; d < depth && len(frontier) > 0; d++ {
+		var next [][]string
+		for _, cur := range frontier {
+			for _, o := range build(cur).enabled() {
+				path := append(append([]string{}, cur...), o)
+				w := build(path)
+				r.trans++
+				r.evals++
+				got := w.order(w.nc)
+				fresh := objects.NewNodeCollection("fresh")
+				fresh.SetNodeSortingPolicy(objects.NewNodeSortingPolicy(c19Policies[w.pol].typ, c19Policies[w.pol].weights))
+				for _, id := range []string{"n1", "n2"} {
+					if w.reg[id] {
+						_ = fresh.AddNode(w.nodes[id])
+					}
+				}
+				want := w.order(fresh)
+				if len(got) > 1 {
+					r.outcomes["p:"+fmt.Sprint(got)+c19Policies[w.pol].String()] = true
+				}
+				if fmt.Sprint(got) != fmt.Sprint(want) {
+					r.fail("node-order-after-policy-change", "differs-from-fresh-collection", c19Case{Kind: "policies", Policy: c19Policies[w.pol].String(), Ops: path},
+						"after %v the nodes are visited as %v; a fresh collection with the same nodes under policy %s visits %v", path, got, c19Policies[w.pol], want)
+					continue
+				}
+				if k := w.key(); !seen[k] {
+					seen[k] = true
+					r.states++
+					next = append(next, path)
+				}
+			}
+		}
+		frontier = next
+	}
 }
